@@ -204,9 +204,9 @@ func init() {
 		return func(tier string) []core.Lane {
 			if tier == "thorough" {
 				return []core.Lane{
-					{Lane: "plain", Cases: thorough, Shards: 16, TimeoutS: 3600},
-					{Lane: "race", Cases: thorough / 10, Shards: 16, TimeoutS: 3600},
-					{Lane: "asan", Cases: thorough / 10, Shards: 16, TimeoutS: 3600},
+					{Lane: "plain", Cases: thorough, Shards: 16, TimeoutS: 7200},
+					{Lane: "race", Cases: thorough / 10, Shards: 16, TimeoutS: 7200},
+					{Lane: "asan", Cases: thorough / 10, Shards: 16, TimeoutS: 7200},
 				}
 			}
 			return []core.Lane{{Lane: "plain", Cases: quick, Shards: 16, TimeoutS: 1200}}
@@ -220,7 +220,7 @@ func init() {
 		Technique: "reference-model monitor: real Marshal/Unmarshal round trips compared with an independent Normalise/Equal oracle",
 		Rule:      genRule,
 		Assume:    []string{"harness model (model.Normalise, model.Diff) states the documented normalisations", "known findings D4 and D22 are excluded from generation (known_findings.json)"},
-		Plan:      plan(1600, 60000),
+		Plan:      plan(8000, 300000),
 		Case:      func(c *core.Ctx, idx int) { roundTripCase(c, idx, modeC01) },
 	})
 	core.Register(&core.Prop{
@@ -228,7 +228,7 @@ func init() {
 		Technique: "byte-exact comparison of real Marshal output with an independent encoder of the documented format (canonical map order), golden files, shuffled-field decodes",
 		Rule:      genRule + " Each value's bytes are compared with the model's; for struct values the model's encoding is re-ordered at every nesting level and decoded by the real Unmarshal.",
 		Assume:    []string{"harness model (model.Encode, model.Canon) states the documented format; anchored on the 19 golden files of the pinned commit"},
-		Plan:      plan(1600, 60000),
+		Plan:      plan(8000, 200000),
 		Setup: func(c *core.Ctx) {
 			if c.Shard == 0 {
 				checkGoldens(c)
